@@ -9,7 +9,9 @@ Tie to the code on every run:
                     here from the document (never from rtflite internals).  Three streams: equal widths / one font
                     (`gen_doc`), general geometry (`gen_doc_w`), and fonts / sizes that vary BY ROW over columns that
                     repeat their texts (`gen_doc_r`: the height of a cell is a function of its text, of the font and
-                    size at its own row and column, and of its own column's width — of nothing else).
+                    size at its own row and column, and of its own column's width — of nothing else).  Each stream
+                    has a second part, the NULL CLASS: nulls, empty strings and numbers at random positions of every data
+                    column over unequal column widths (`_blank_row`): such a cell still is a displayed column of the row.
   (d) rows of two subline_by / (new_page) page_by groups never share a page — checked on the observation
   (e) prefix stability — metamorphic on the implementation: the table cut after m rows paginates its rows
       exactly as the full table did.
@@ -37,7 +39,15 @@ RULE = ("unit: metadata vectors (total 1..4, group/subline flags, nrow, addition
         "tags draws from a pool of 1-3 texts of the column plus near-repeats (one character more / less / changed, case "
         "swapped), so the same text stands in one column at two sizes / fonts with two different line counts; values of a "
         "page_by column that stays in the table long enough to wrap at the larger size; every cell ≥ 0.2 line inside a "
-        "band at the font and size of its OWN ROW AND COLUMN; "
+        "band at the font and size of its OWN ROW AND COLUMN; (iv) the null class, a second part of each of the three "
+        "streams (default font / general geometry / row-varying), always over unequal col_rel_width: every data column draws "
+        "a share of nulls and a share of empty strings (0 … 0.9: columns without any, sparse ones, almost-all-null ones; "
+        "first / inner / last displayed column, several per row, in 1-, 2- and 3-line rows), optionally one data column "
+        "holds numbers (Int64 or Float64 with nulls); one tagged cell per row is kept (a random column per row; the tag "
+        "column in r/); a null stands only where the text \"None\" at the font and size of that very cell is ≤ 0.8 line of "
+        "its own column, numbers likewise, so these cells need one line whether a null is measured as \"None\" (what the "
+        "code does) or as the empty text it is rendered as, and the row's height is that of its other cells, each in its "
+        "own column; "
         "non-trivial = at least 2 pages and at least one break caused by overflow or by a "
         "grouping rule; distinct by (strategy, nrow, additional, page vector)")
 TRUSTED = [
@@ -48,7 +58,9 @@ TRUSTED = [
     "int(width / column width) + 1 over its displayed cells, each text measured with get_string_width at the font and "
     "size of its own cell (row AND column: laygen.attr_at on the attribute as given, cyclic broadcast; nothing is "
     "remembered per text) against the width of its own column (col_rel_width share of the table width) and "
-    "generated to lie well inside that band; + the heading lines of the groups the row starts",
+    "generated to lie well inside that band; + the heading lines of the groups the row starts; a null cell, an empty "
+    "string and a number count one line (they are generated only where str(value) — \"None\" for a null — is ≤ 0.8 line "
+    "of the cell's own column at its own font and size)",
 ]
 MANIFEST = dict(
     text="Lean theorems over the model of _assign_pages + group-change detection (all row lists, nrow, "
@@ -57,12 +69,16 @@ MANIFEST = dict(
          "on every run by unit correspondence (exhaustive small vectors + random) and by observation of whole "
          "documents whose observed pagination is judged by the Lean-defined oracle checkBreaks; in addition the "
          "loop of _assign_pages is translated from its Python source on every run (harness/pytranslate.py) and proved "
-         "equal to the model for all inputs (Props/C04py.lean).",
+         "equal to the model for all inputs (Props/C04py.lean). Null cells: Props/C04null.lean (a null counts the lines "
+         "of the text \"None\"; where that text fits its column the row's data lines are 1 or those of ANOTHER displayed "
+         "cell at its own width — the null neither adds lines nor moves its neighbours to another column).",
     note="Row costs in the document-level oracle come from the harness (texts well inside a line band of their own "
          "column — its width, font and size —, measured with the real get_string_width; unequal col_rel_width, "
          "per-column / per-cell / per-ROW fonts and sizes (tuples, column matrices, cyclic short values) with texts that "
          "repeat within a column, so one text has several heights in one column; page_by columns kept in or removed from "
-         "the table, key columns at any position); Pillow, polars and pydantic are parameters.",
+         "the table, key columns at any position; null / empty-string / numeric cells at any position of any data column "
+         "over unequal widths, a null only where \"None\" fits well inside one line of its cell, so that the height of the "
+         "row does not depend on how a null is measured); Pillow, polars and pydantic are parameters.",
     technique="Lean 4 proof (induction over rows) + source-to-Lean translation of _assign_pages with an equality theorem + "
               "differential correspondence model/implementation",
     design="7/C04",
@@ -71,6 +87,10 @@ ASSUME = [
     "Pillow/FreeType string width is a parameter (measured, not modelled)",
     "polars row order and slicing; pydantic construction",
     "float division in int(w/cw): generated widths stay ≥ 0.2 line away from band edges",
+    "a null cell is measured by calculate_row_metadata as the text \"None\" and rendered as an empty cell: the documents "
+    "hold nulls only in cells where \"None\" (font and size of the cell) is ≤ 0.8 line of the cell's column, so a row's "
+    "height is the same under both readings; rows whose height would rest on the measurement of a null are outside the "
+    "property's quantifier (unambiguous heights) and are not generated",
 ]
 
 
@@ -179,8 +199,9 @@ def text_in_band(rng, tag: str, k: int, col_width: float) -> str:
     return s
 
 
-def gen_doc(rng, tier):
-    """spec + expectation for one observation-level case"""
+def gen_doc(rng, tier, nulls=False):
+    """spec + expectation for one observation-level case; nulls: the null class (see `_blank_row`) — unequal integer
+    col_rel_width, nulls / empty strings at random positions of every data column, optionally one column of numbers"""
     strategy = rng.choice(["plain", "plain", "page_by", "page_by_np", "page_by_np_first", "subline", "subline_page_by"])
     n = rng.choice([0, 1, 2, 3]) if rng.random() < 0.08 else rng.randint(4, 45)
     ndata = rng.randint(2, 4)
@@ -258,28 +279,60 @@ def gen_doc(rng, tier):
     displayed = [c for c in all_cols if c not in removed]
     col_total = 6.25  # portrait default col_width = 8.5 - 2.25
     cw = col_total / len(displayed)
+    cwl = [cw] * len(displayed)
+    rel_all = numcol = None
+    if nulls:
+        # unequal widths, one per frame column (the removed columns' entries drop out); every tag and every kept key
+        # value stays well inside the 1-line band of its column (else the spread of the widths is cut down)
+        draw = [rng.choice([1, 1, 2, 3, 4, 5]) for _ in all_cols]
+        for cap in (5, 3, 2, 1):
+            rel_all = [min(r, cap) for r in draw]
+            rel_disp = [rel_all[all_cols.index(c)] for c in displayed]
+            cwl = [col_total * r / sum(rel_disp) for r in rel_disp]
+            short = [(f"r{max(n - 1, 0)}c{j}", cwl[displayed.index(c)]) for j, c in enumerate(cols)]
+            short += [(v, cwl[displayed.index(kc)]) for kc in keycols if kc in displayed for v in set(keyvals[kc])]
+            if all(measure(t) / w <= 0.7 for t, w in short):
+                break
+        rates = _draw_null_rates(rng, ndata)
+        if rng.random() < 0.35:
+            numcol = rng.randrange(ndata)
+            numvals = [rng.choice(_INTS if rng.random() < 0.5 else _FLOATS) for _ in range(3)]
+            numvals = [v for v in numvals if type(v) is type(numvals[0])]
+    cwd = [cwl[displayed.index(c)] for c in cols]      # width of every data column
     lines = []
     rows = []
     for i in range(n):
         k = 1
         r = rng.random()
-        if r < 0.15:
+        if r < 0.15 or (nulls and r < 0.4):
             k = 2
-        elif r < 0.22:
+        elif r < 0.22 or (nulls and r < 0.5):
             k = 3
         row = [keyvals[kc][i] for kc in keycols]
         jlong = rng.randrange(ndata)
         klines = 1
+        data = []
         for j in range(ndata):
             tag = f"r{i}c{j}"
             if j == jlong and k > 1:
-                t = text_in_band(rng, tag, k, cw)
-                klines = max(1, int(measure(t) / cw) + 1)
-                row.append(t)
+                t = text_in_band(rng, tag, k, cwd[j])
+                klines = max(1, int(measure(t) / cwd[j]) + 1)
+                data.append(t)
             else:
-                row.append(tag)
+                data.append(tag)
+        if nulls:
+            def none_fits(j):
+                return measure("None") / cwd[j] <= 0.8
+
+            if numcol is not None:
+                fit = [v for v in numvals if measure(str(v)) / cwd[numcol] <= 0.8]
+                data[numcol] = rng.choice(fit) if fit else ""
+            keeper = rng.choice([j for j in range(ndata) if j != numcol])
+            data = _blank_row(rng, data, rates, keeper, none_fits, numcol)
+            # a null needs one line whether it is taken as "" or as "None" (it stands only where "None" fits)
+            klines = max([1] + [int(measure(str(v)) / cwd[j]) + 1 for j, v in enumerate(data) if v is not None])
         lines.append(klines)
-        rows.append(row)
+        rows.append(row + data)
     hdr_mode = rng.choice(["explicit", "explicit2", "none"])
     if hdr_mode == "none":
         headers = []
@@ -298,6 +351,8 @@ def gen_doc(rng, tier):
         body["subline_by"] = subline_by
     if rng.random() < 0.5:
         body["pageby_header"] = rng.random() < 0.5
+    if rel_all is not None:
+        body["col_rel_width"] = rel_all
     spec = dict(kind="table", df=dict(cols=all_cols, rows=rows), page=dict(nrow=nrow), headers=headers, body=body,
                 footnote=dict(text="FOOTNOTE", as_table=rng.random() < 0.6) if fn else None,
                 source=dict(text="SOURCE", as_table=rng.random() < 0.5) if src else None)
@@ -322,6 +377,14 @@ def gen_doc(rng, tier):
     exp = dict(nrow=nrow, additional=additional, np=np_eff, rows=meta, strategy=strategy,
                skeys=["|".join(keyvals[c][i] for c in subline_by) for i in range(n)] if subline_by else None,
                pkeys=["|".join(keyvals[c][i] for c in page_by) for i in range(n)] if page_by else None)
+    if nulls:
+        def line_at(i, p, p2):
+            return int(measure(str(rows[i][all_cols.index(displayed[p])])) / cwl[p2]) + 1
+
+        exp["shape"] = (["nulls"] + (["nulls_numeric_column"] if numcol is not None else [])
+                        + _null_labels([[r[all_cols.index(c)] for c in displayed] for r in rows], cwl, line_at))
+        exp["col_widths"] = [round(x, 6) for x in cwl]
+        exp["data_lines"] = lines
     return dict(spec=spec, exp=exp)
 
 
@@ -541,7 +604,90 @@ def _repeat_labels(all_cols, displayed, rows, cw, fs):
     return ["rowvar_" + x for x in sorted(labs)]
 
 
-def _gen_doc_w_once(rng, rowvar=False):
+# ---- the null class: cells that are null, empty, or typed values — at any position of any data column
+#
+# A frame cell need not be a non-empty string.  A null is RENDERED as an empty cell, while `calculate_row_metadata`
+# measures `str(value)` = "None"; an empty string is rendered and measured as nothing; an Int64 / Float64 column hands
+# out python numbers whose `str()` is measured.  The height of a row is unambiguous (the property's quantifier) when every
+# such cell needs ONE line however it is looked at: a cell is made null only where the text "None", at the font and size
+# of that very cell, is well inside the 1-line band of the cell's own column (q ≤ 0.8), numbers likewise; so neither the
+# cell's own line count nor the row's depends on what a null is measured as, and the oracle counts one line for it.  What
+# the class exercises is everything AROUND such a cell: it still is a displayed column with its own width, font and
+# size, and every other cell of the row — left and right of it — keeps being measured against ITS OWN column.  The
+# documents of the class draw, per data column, a share of nulls and a share of empty strings (0 … 0.9: columns without
+# any, sparse ones, columns that are almost all null), optionally turn one data column into numbers (all int / all float,
+# with nulls), keep one tagged cell per row (a random column in every row; in the `r/` stream the tag column), and have
+# unequal column widths.
+
+_NULL_SHARES = [0, 0, 0.1, 0.3, 0.6, 0.9]
+_EMPTY_SHARES = [0, 0, 0, 0.1, 0.3]
+_INTS = [0, 7, 12, 100, -3, 2024]
+_FLOATS = [0.5, 3.25, 12.0, 100.125, -1.5]
+
+
+def _draw_null_rates(rng, ndata, never=()):
+    """per data column (share of nulls, share of empty strings); at least one column that may be blanked has nulls"""
+    rates = [(rng.choice(_NULL_SHARES), rng.choice(_EMPTY_SHARES)) for _ in range(ndata)]
+    free = [j for j in range(ndata) if j not in never]
+    if free and not any(rates[j][0] for j in free):
+        j = rng.choice(free)
+        rates[j] = (rng.choice([0.2, 0.5, 0.9]), rates[j][1])
+    return rates
+
+
+def _blank_row(rng, vals, rates, keeper, none_fits, numcol=None):
+    """`vals` (one value per data column) with nulls / empty strings drawn by the columns' shares; column `keeper` keeps
+    its (tagged) text; a null only where `none_fits(j)` — the text "None" is well inside the 1-line band of that cell"""
+    out = list(vals)
+    for j, (a, b) in enumerate(rates):
+        if j == keeper:
+            continue
+        u = rng.random()
+        if u < a:
+            if none_fits(j):
+                out[j] = None
+            elif j != numcol:
+                out[j] = ""
+        elif u < a + b and j != numcol:
+            out[j] = ""
+    return out
+
+
+def _null_labels(disp_vals, cw, line_at):
+    """what a document of the null class exhibits.  disp_vals[i][p] value of row i at displayed position p;
+    line_at(i, p, p2) = lines of the cell (i, p) if it were measured with the width, font and size of position p2"""
+    labs = set()
+    unequal = len(set(round(x, 6) for x in cw)) > 1
+    for i, vs in enumerate(disp_vals):
+        nd = len(vs)
+        for p, v in enumerate(vs):
+            if v is None:
+                labs.add("null_cell")
+                labs.add("null_first_column" if p == 0 else "null_last_column" if p == nd - 1 else "null_inner_column")
+                if p < nd - 1 and unequal:
+                    labs.add("null_not_last+unequal_widths")
+            elif v == "":
+                labs.add("empty_string_cell")
+            elif not isinstance(v, str):
+                labs.add("number_cell")
+        if sum(v is None for v in vs) > 1:
+            labs.add("several_nulls_in_row")
+        if any(v is None for v in vs):
+            own = max([1] + [line_at(i, p, p) for p, v in enumerate(vs) if v is not None])
+            if own > 1:
+                labs.add("null_in_tall_row")
+            # does the row's height rest on every cell being measured in its OWN column?  (the cells right of the
+            # first null taken one column to the left, or all cells one to the right, give another height)
+            first = min(p for p, v in enumerate(vs) if v is None)
+            left = max([1] + [line_at(i, p, p - 1 if p > first else p) for p, v in enumerate(vs) if v is not None])
+            right = max([1] + [line_at(i, p, min(p + 1, nd - 1)) for p, v in enumerate(vs) if v is not None])
+            if left != own or right != own:
+                labs.add("null_row_height_depends_on_own_column")
+    return ["nulls_" + x for x in sorted(labs)]
+
+
+
+def _gen_doc_w_once(rng, rowvar=False, nulls=False):
     label, levels, new_page, pageby_row, has_sub = rng.choices(GROUPINGS, weights=_GROUPING_WEIGHTS)[0]
     n = rng.choice([0, 1, 2, 3]) if rng.random() < 0.08 else rng.randint(4, 45)
     ndata = rng.randint(2, 4)
@@ -589,6 +735,8 @@ def _gen_doc_w_once(rng, rowvar=False):
         W = rng.choice([4.5, 5.0, 7.0, 7.5])
         page["col_width"] = W
     wmode = rng.choice(["int", "int", "float", "displayed" if removed else "int", "equal"])
+    if nulls and wmode == "equal":
+        wmode = rng.choice(["int", "float"])     # the null class has unequal widths (an equal draw may still occur)
     body = {}
     if wmode == "equal":
         rel_all = [1] * ncols
@@ -682,10 +830,19 @@ def _gen_doc_w_once(rng, rowvar=False):
     # row-varying class: one data column carries the row tags, the others (most of them) show texts drawn from a small
     # pool of the column — the same text, and texts that differ from it in one character, in many rows of one column
     pools = {}
+    tagcol = numcol = None
     if rowvar and n:
         tagcol = rng.randrange(ndata)
+    if nulls and n:
+        # null class: shares of nulls / empty strings per data column; one column of numbers (never the only tagged one)
+        rates = _draw_null_rates(rng, ndata, never=() if tagcol is None else (tagcol,))
+        if ndata >= 2 and rng.random() < 0.35:
+            numcol = rng.choice([j for j in range(ndata) if j != tagcol])
+            numvals = [rng.choice(_INTS if rng.random() < 0.5 else _FLOATS) for _ in range(3)]
+            numvals = [v for v in numvals if type(v) is type(numvals[0])]
+    if rowvar and n:
         for j, c in enumerate(cols):
-            if j != tagcol and rng.random() < 0.8:
+            if j != tagcol and j != numcol and rng.random() < 0.8:
                 if pools and rng.random() < 0.3:
                     # the texts of another column: the same text in two columns of different width (font, size)
                     pools[c] = list(pools[rng.choice(sorted(pools))])
@@ -717,11 +874,26 @@ def _gen_doc_w_once(rng, rowvar=False):
             if t is None:
                 return None
             row[c] = t
+        if nulls:
+            def one_line(j, text):
+                f, s = fs(i, cols[j])
+                return laygen.measure(text, f, s) / cw[displayed.index(cols[j])] <= 0.8
+
+            if numcol is not None:
+                fit = [v for v in numvals if one_line(numcol, str(v))]
+                row[cols[numcol]] = rng.choice(fit) if fit else None
+                if not fit and not one_line(numcol, "None"):
+                    return None
+            keeper = tagcol if tagcol is not None else rng.choice([j for j in range(ndata) if j != numcol])
+            blanked = _blank_row(rng, [row[c] for c in cols], rates, keeper, lambda j: one_line(j, "None"), numcol)
+            row.update(zip(cols, blanked))
         ln = 1
         for k, c in enumerate(displayed):
             f, s = fs(i, c)
+            # a null is measured as str(None) = "None" by the code and rendered as "": it stands only where "None" is
+            # well inside the 1-line band of this cell, so it needs one line either way (as do "" and the numbers)
             qv = laygen.measure(str(row[c]), f, s) / cw[k]
-            if not well_inside(qv):
+            if not well_inside(qv) or (not isinstance(row[c], str) and qv > 0.8):
                 return None
             ln = max(ln, int(qv) + 1)
         lines.append(ln)
@@ -776,6 +948,13 @@ def _gen_doc_w_once(rng, rowvar=False):
              "tablew:" + ("default" if W == 6.25 else "custom")]
     if rowvar:
         shape = ["rowvar"] + ["rowvar_" + x for x in shape] + _repeat_labels(all_cols, displayed, rows, cw, fs)
+    if nulls:
+        def line_at(i, p, p2):
+            f, z = fs(i, displayed[p2])
+            return int(laygen.measure(str(rows[i][all_cols.index(displayed[p])]), f, z) / cw[p2]) + 1
+
+        shape = (["nulls"] + (["nulls_numeric_column"] if numcol is not None else [])
+                 + _null_labels([[r[all_cols.index(c)] for c in displayed] for r in rows], cw, line_at) + shape)
     if kept:
         shape.append("pageby_col_kept")
         if len(set(round(x, 6) for x in cw)) > 1:
@@ -797,28 +976,30 @@ class _Ambiguous(Exception):
     pass
 
 
-def gen_doc_w(seed, k, tier):
+def gen_doc_w(seed, k, tier, nulls=False):
     """general-geometry document number k of the seed's stream (deterministic; retried with fresh sub-streams while a
-    cell cannot be placed unambiguously, e.g. a column too narrow for its font)"""
+    cell cannot be placed unambiguously, e.g. a column too narrow for its font); nulls: the null class, its own stream"""
+    tag = "c04docwn" if nulls else "c04docw"
     for attempt in range(25):
-        c = _gen_doc_w_once(sub_rng(seed, "c04docw", k, attempt))
+        c = _gen_doc_w_once(sub_rng(seed, tag, k, attempt), nulls=nulls)
         if c is not None:
             c["exp"]["attempts"] = attempt + 1
             return c
-    c = gen_doc(sub_rng(seed, "c04docw-fallback", k), tier)
-    c["exp"]["shape"] = ["fallback_equal_widths"]
+    c = gen_doc(sub_rng(seed, tag + "-fallback", k), tier, nulls=nulls)
+    c["exp"]["shape"] = ["fallback_equal_widths"] + (c["exp"].get("shape") or [])
     return c
 
 
-def gen_doc_r(seed, k, tier):
+def gen_doc_r(seed, k, tier, nulls=False):
     """row-varying document number k of the seed's stream (see `_draw_rowvar_attrs`, `_text_pool`)"""
+    tag = "c04docrn" if nulls else "c04docr"
     for attempt in range(40):
-        c = _gen_doc_w_once(sub_rng(seed, "c04docr", k, attempt), rowvar=True)
+        c = _gen_doc_w_once(sub_rng(seed, tag, k, attempt), rowvar=True, nulls=nulls)
         if c is not None:
             c["exp"]["attempts"] = attempt + 1
             return c
-    c = gen_doc(sub_rng(seed, "c04docr-fallback", k), tier)
-    c["exp"]["shape"] = ["rowvar_fallback_equal_widths"]
+    c = gen_doc(sub_rng(seed, tag + "-fallback", k), tier, nulls=nulls)
+    c["exp"]["shape"] = ["rowvar_fallback_equal_widths"] + (c["exp"].get("shape") or [])
     return c
 
 
@@ -922,6 +1103,9 @@ def _judge_all(res, cases, obs):
             nt = ("d", c["exp"]["strategy"], c["exp"]["nrow"], c["exp"]["additional"], tuple(pages))
         res.case(dict(level="doc", spec=c["spec"], exp=c["exp"], prefix_m=c.get("prefix_m")), nt)
         res.count("doc:" + c["exp"]["strategy"])
+        if "nulls" in (c["exp"].get("shape") or ()):
+            st = c["exp"]["strategy"]
+            res.count("doc_null_class:" + (st[:2] if st[1:2] == "/" else "m/"))
         for lab in c["exp"].get("shape") or ():
             res.count("docw_shape:" + lab)
         res.count(f"doc_pages:{min(9, max([0] + [p or 0 for p in pages]))}")
@@ -938,33 +1122,44 @@ def run_docs(res, rng, tier, corpus=()):
         if n >= 2 and k % 3 == 0:
             c["prefix_m"] = sub_rng(res.seed, "c04pm", k).randint(1, n - 1)
         cases.append(c)
+    # the null class in the first stream: default font, unequal integer col_rel_width, nulls / empty strings / numbers
+    for k in range(120 if tier == "quick" else 1200):
+        c = gen_doc(sub_rng(res.seed, "c04docn", k), tier, nulls=True)
+        n = len(c["exp"]["rows"])
+        if n >= 2 and k % 3 == 0:
+            c["prefix_m"] = sub_rng(res.seed, "c04pmn", k).randint(1, n - 1)
+        cases.append(c)
     obs = common.pool_map(_doc_worker, cases, chunksize=4)
     _judge_all(res, cases, obs)
 
 
 def _docw_worker(arg):
     """generate (in the worker: every placement measures with the real get_string_width) and observe"""
-    seed, k, tier = arg
-    c = gen_doc_w(seed, k, tier)
+    seed, k, tier = arg[:3]
+    nulls = len(arg) > 3 and arg[3]
+    c = gen_doc_w(seed, k, tier, nulls=nulls)
     n = len(c["exp"]["rows"])
     if n >= 2 and k % 3 == 0:
-        c["prefix_m"] = sub_rng(seed, "c04pmw", k).randint(1, n - 1)
+        c["prefix_m"] = sub_rng(seed, "c04pmwn" if nulls else "c04pmw", k).randint(1, n - 1)
     return c, _doc_worker(c)
 
 
 def run_docs_w(res, tier):
     """tables of general geometry: own width / font / size per column, key columns anywhere, every grouping option"""
     ndocs = 280 if tier == "quick" else 3000
-    out = common.pool_map(_docw_worker, [(res.seed, k, tier) for k in range(ndocs)], chunksize=2)
+    nnull = 200 if tier == "quick" else 2000       # the null class (nulls / empty strings / numbers in the data columns)
+    args = [(res.seed, k, tier) for k in range(ndocs)] + [(res.seed, k, tier, True) for k in range(nnull)]
+    out = common.pool_map(_docw_worker, args, chunksize=2)
     _judge_all(res, [c for c, _ in out], [o for _, o in out])
 
 
 def _docr_worker(arg):
-    seed, k, tier = arg
-    c = gen_doc_r(seed, k, tier)
+    seed, k, tier = arg[:3]
+    nulls = len(arg) > 3 and arg[3]
+    c = gen_doc_r(seed, k, tier, nulls=nulls)
     n = len(c["exp"]["rows"])
     if n >= 2 and k % 3 == 0:
-        c["prefix_m"] = sub_rng(seed, "c04pmr", k).randint(1, n - 1)
+        c["prefix_m"] = sub_rng(seed, "c04pmrn" if nulls else "c04pmr", k).randint(1, n - 1)
     return c, _doc_worker(c)
 
 
@@ -972,7 +1167,9 @@ def run_docs_r(res, tier):
     """tables whose fonts / sizes vary BY ROW and whose columns repeat their texts (the height of a cell is a function of
     its text and of the font and size of its own row)"""
     ndocs = 200 if tier == "quick" else 2400
-    out = common.pool_map(_docr_worker, [(res.seed, k, tier) for k in range(ndocs)], chunksize=2)
+    nnull = 140 if tier == "quick" else 1600       # the null class over row-varying fonts / sizes
+    args = [(res.seed, k, tier) for k in range(ndocs)] + [(res.seed, k, tier, True) for k in range(nnull)]
+    out = common.pool_map(_docr_worker, args, chunksize=2)
     _judge_all(res, [c for c, _ in out], [o for _, o in out])
 
 
